@@ -128,7 +128,13 @@ def init (rb : Rb) (wprog : List WOp) (rprog : List ROp) : Conf :=
     wOuts := [], rOuts := [], writesOk := [], readsOk := [], lin := [] }
 
 /-- `qb_rb_space_free` computed from the two loaded values (bytes); the semaphore is
-    consulted (`q_len_fn`) only when they are equal -/
+    consulted (`q_len_fn`) only when they are equal.  This is the NON-OVERWRITE ring (`r.ow =
+    false`, the only mode C01 is about and the only one `wstep` models: there is no reclaim loop
+    in the `qb_rb_chunk_alloc` steps): the conjunct `!(rb->flags & QB_RB_FLAG_OVERWRITE)` that
+    /repo c38cdfd (D31b) put in front of the `q_len_fn` test is then true.
+    `Props.C01.freeSeen_eq_c` proves this function equal, for `ow = false`, to the machine
+    translation of the current C function (Gen/RingC.lean) on the loaded values; no step changes
+    `ow` (`Props.C01.run_ow`). -/
 def freeSeen (r : Rb) (ws rs : Nat) : Nat :=
   4 * (if ws > rs then rs + r.W - ws - 1
        else if ws < rs then rs - ws - 1
